@@ -28,12 +28,12 @@ import (
 // ---------- independent scanner of the client's byte stream ----------
 
 type scanResult struct {
-	Problems     []string
-	NonSyncLits  []int // sizes
-	SyncLits     []int
-	Quoted8bit   int
-	Quoted       int
-	HasCharset   bool
+	Problems    []string
+	NonSyncLits []int // sizes
+	SyncLits    []int
+	Quoted8bit  int
+	Quoted      int
+	HasCharset  bool
 }
 
 func scan(stream []byte) scanResult {
@@ -161,13 +161,22 @@ func cmdDefs() []cmdDef {
 		{"DELETE", 1, func(c *imapclient.Client, a []string) func() { return wait(c.Delete(a[0])) }},
 		{"RENAME", 2, func(c *imapclient.Client, a []string) func() { return wait(c.Rename(a[0], a[1])) }},
 		{"SUBSCRIBE", 1, func(c *imapclient.Client, a []string) func() { return wait(c.Subscribe(a[0])) }},
-		{"SELECT", 1, func(c *imapclient.Client, a []string) func() { cmd := c.Select(a[0], nil); return func() { cmd.Wait() } }},
+		{"SELECT", 1, func(c *imapclient.Client, a []string) func() {
+			cmd := c.Select(a[0], nil)
+			return func() { cmd.Wait() }
+		}},
 		{"STATUS", 1, func(c *imapclient.Client, a []string) func() {
 			cmd := c.Status(a[0], &imap.StatusOptions{NumMessages: true})
 			return func() { cmd.Wait() }
 		}},
-		{"LIST", 2, func(c *imapclient.Client, a []string) func() { cmd := c.List(a[0], a[1], nil); return func() { cmd.Collect() } }},
-		{"COPY", 1, func(c *imapclient.Client, a []string) func() { cmd := c.Copy(imap.SeqSetNum(1), a[0]); return func() { cmd.Wait() } }},
+		{"LIST", 2, func(c *imapclient.Client, a []string) func() {
+			cmd := c.List(a[0], a[1], nil)
+			return func() { cmd.Collect() }
+		}},
+		{"COPY", 1, func(c *imapclient.Client, a []string) func() {
+			cmd := c.Copy(imap.SeqSetNum(1), a[0])
+			return func() { cmd.Wait() }
+		}},
 		{"SEARCH-body-header", 2, func(c *imapclient.Client, a []string) func() {
 			cmd := c.Search(&imap.SearchCriteria{Body: []string{a[0]}, Header: []imap.SearchCriteriaHeaderField{{Key: "X-K", Value: a[1]}}}, nil)
 			return func() { cmd.Wait() }
@@ -323,9 +332,11 @@ func legalBody(lc legalCase, defs []cmdDef) func() interface{} {
 // ---------- part 2: synchronisation ----------
 
 type syncScenario struct {
-	name    string
-	refuse  map[int]string // literal index (global order) -> "NO"/"BAD"
-	callers []func(c *imapclient.Client) error
+	name     string
+	refuse   map[int]string // literal index (global order) -> "NO"/"BAD"
+	callers  []func(c *imapclient.Client) error
+	greeting string                           // default: no LITERAL capability
+	after    func(c *imapclient.Client) error // run after the callers (instead of the final NOOP check only)
 }
 
 // every literal-bearing argument has a marker payload of a distinct length, so that the size in a
@@ -354,17 +365,38 @@ func syncScenarios() []syncScenario {
 			r[0] = ref
 		}
 		out = append(out,
-			syncScenario{"login-user-literal/" + ref, r, []func(*imapclient.Client) error{login(marker(1), "p")}},
-			syncScenario{"login-pass-literal/" + ref, r, []func(*imapclient.Client) error{login("u", marker(2))}},
-			syncScenario{"append/" + ref, r, []func(*imapclient.Client) error{appendCmd}},
-			syncScenario{"search-literal/" + ref, r, []func(*imapclient.Client) error{search}},
-			syncScenario{"two-threads-literals/" + ref, r, []func(*imapclient.Client) error{login(marker(1), "p"), search}},
+			syncScenario{name: "login-user-literal/" + ref, refuse: r, callers: []func(*imapclient.Client) error{login(marker(1), "p")}},
+			syncScenario{name: "login-pass-literal/" + ref, refuse: r, callers: []func(*imapclient.Client) error{login("u", marker(2))}},
+			syncScenario{name: "append/" + ref, refuse: r, callers: []func(*imapclient.Client) error{appendCmd}},
+			syncScenario{name: "search-literal/" + ref, refuse: r, callers: []func(*imapclient.Client) error{search}},
+			syncScenario{name: "two-threads-literals/" + ref, refuse: r, callers: []func(*imapclient.Client) error{login(marker(1), "p"), search}},
 		)
 		if ref != "" {
-			out = append(out, syncScenario{"login-both-literals/second-" + ref, map[int]string{1: ref}, []func(*imapclient.Client) error{login(marker(1), marker(2))}})
+			out = append(out, syncScenario{name: "login-both-literals/second-" + ref, refuse: map[int]string{1: ref}, callers: []func(*imapclient.Client) error{login(marker(1), marker(2))}})
 		}
 	}
-	out = append(out, syncScenario{"login-both-literals/", map[int]string{}, []func(*imapclient.Client) error{login(marker(1), marker(2))}})
+	out = append(out, syncScenario{name: "login-both-literals/", refuse: map[int]string{}, callers: []func(*imapclient.Client) error{login(marker(1), marker(2))}})
+	// a command with several string arguments whose FIRST literal is refused: nothing of the rest of
+	// the command may reach the wire, and later commands must work
+	big := marker(5) + strings.Repeat("u", 5000)
+	for _, ref := range []string{"NO", "BAD"} {
+		out = append(out,
+			syncScenario{name: "literal-minus/first-sync-refused-second-nonsync/" + ref, refuse: map[int]string{0: ref}, greeting: "* PREAUTH [CAPABILITY IMAP4rev1 LITERAL-] ready\r\n",
+				callers: []func(*imapclient.Client) error{func(c *imapclient.Client) error { c.WaitGreeting(); return c.Login(big, marker(2)+"\nX").Wait() }}},
+			syncScenario{name: "first-refused-then-next-command-with-literal/" + ref, refuse: map[int]string{0: ref},
+				callers: []func(*imapclient.Client) error{login(marker(1)+"\n", marker(2)+"\n")},
+				after:   func(c *imapclient.Client) error { return c.Login(marker(6)+"\n", "pw").Wait() }},
+			syncScenario{name: "append-mailbox-literal-refused/" + ref, refuse: map[int]string{0: ref},
+				callers: []func(*imapclient.Client) error{func(c *imapclient.Client) error {
+					cmd := c.Append(marker(7)+"\n", int64(len(marker(3))), nil)
+					cmd.Write([]byte(marker(3)))
+					cmd.Close()
+					_, err := cmd.Wait()
+					return err
+				}},
+				after: func(c *imapclient.Client) error { return c.Login(marker(6)+"\n", "pw").Wait() }},
+		)
+	}
 	return out
 }
 
@@ -377,7 +409,11 @@ func syncBody(sc syncScenario) func() interface{} {
 	return func() interface{} {
 		var obs syncObs
 		cEnd, sEnd := vnet.Pair("client", "server")
-		srv := &vimap.Server{End: sEnd, Greeting: "* PREAUTH [CAPABILITY IMAP4rev1] ready\r\n"}
+		greeting := "* PREAUTH [CAPABILITY IMAP4rev1] ready\r\n"
+		if sc.greeting != "" {
+			greeting = sc.greeting
+		}
+		srv := &vimap.Server{End: sEnd, Greeting: greeting}
 		litCount := 0
 		refusedSize := -1
 		srv.AcceptLiteral = func(tag string, n, i int) string {
@@ -427,11 +463,39 @@ func syncBody(sc syncScenario) func() interface{} {
 			})
 		}
 		vsched.WaitUntil("join", func() bool { return running == 0 })
+		if sc.greeting != "" {
+			c.WaitGreeting()
+		}
+		var aerr error
+		if sc.after != nil {
+			aerr = sc.after(c)
+		}
 		// the connection must survive a refusal: a NOOP still works
 		nerr := c.Noop().Wait()
+		if aerr != nil {
+			obs.Problems = append(obs.Problems, problem{"command-after-refusal-fails", aerr.Error()})
+		}
 		c.Close()
 		obs.Results = results
-		if refusedAt >= 0 && refusedSize >= 0 && strings.Contains(string(stream[refusedAt:]), marker(refusedSize-len(marker(0)))) {
+		if refusedAt >= 0 && len(sc.callers) == 1 {
+			// single caller: whatever follows the refusal must be the start of a NEW command
+			rest := string(stream[refusedAt:])
+			ok := rest == ""
+			if len(rest) > 2 && rest[0] == 'T' {
+				j := 1
+				for j < len(rest) && rest[j] >= '0' && rest[j] <= '9' {
+					j++
+				}
+				ok = j > 1 && j < len(rest) && rest[j] == ' '
+			}
+			if !ok {
+				if len(rest) > 80 {
+					rest = rest[:80]
+				}
+				obs.Problems = append(obs.Problems, problem{"bytes-of-refused-command-written-after-refusal", fmt.Sprintf("after the tagged refusal the client wrote %q", rest)})
+			}
+		}
+		if refusedAt >= 0 && refusedSize >= 0 && refusedSize < 100 && strings.Contains(string(stream[refusedAt:]), marker(refusedSize-len(marker(0)))) {
 			obs.Problems = append(obs.Problems, problem{"payload-written-after-refusal", fmt.Sprintf("after the tagged refusal the client still wrote %q", stream[refusedAt:])})
 		}
 		if len(sc.refuse) > 0 {
